@@ -770,7 +770,7 @@ func (e *env) label(b []byte) string {
 func runC15(a *Args) error {
 	rng := NewRng(a.Seed)
 	w := NewCaseWriter(a, "C15", "", "case", "run")
-	w.Rule = "histories of FileCache.Set / Get and environment operations (corrupt, remove, directory in the way) on a fresh cache directory, run on the real verifier/crl.FileCache; families: expiry matrix (base x delta in fresh / expired / zero NextUpdate / not a CRL / nil), isolation scripts over all pairs of near-identical urls, hostile urls (traversal, empty, the file name of another url, 5 kB) with decoy entries planted outside the root, ~70 kinds of corruption of a stored entry (truncation at every length class, bit flips, swapped fields, foreign JSON, wrong types, bad base64, damaged DER), duplicate JSON members with the odd one first / middle / last and rarely used legal JSON syntax (escaped keys and characters, case-folded keys, CR LF inside base64, pretty printing), nil bundles and directories in the way, overwrite of every ordered pair of stored bundles (same length, older/newer, with/without delta), scripts on ONE long-lived FileCache object and on TWO objects sharing the root whose expected answer changes between calls (A then B, miss then hit, hit then miss, fail then pass), random histories (half of them spread over the two objects) of 3..12 operations followed by a sweep of Gets, and entries that expire while the history runs (real clock). non-trivial = some Get addresses a url that was stored or corrupted earlier in the history, or the history touches a hostile url; distinct = distinct (family, urls, operations, CRL kinds, corruption, results) sequences"
+	w.Rule = "histories of FileCache.Set / Get and environment operations (corrupt, remove, directory in the way) on a fresh cache directory, run on the real verifier/crl.FileCache; families: expiry matrix (base x delta in fresh / expired / zero NextUpdate / not a CRL / nil), isolation scripts over all pairs of near-identical urls, hostile urls (traversal, empty, the file name of another url, 5 kB) with decoy entries planted outside the root, ~70 kinds of corruption of a stored entry (truncation at every length class, bit flips, swapped fields, foreign JSON, wrong types, bad base64, damaged DER), duplicate JSON members with the odd one first / middle / last and rarely used legal JSON syntax (escaped keys and characters, case-folded keys, CR LF inside base64, pretty printing), nil bundles and directories in the way, overwrite of every ordered pair of stored bundles (same length, older/newer, with/without delta), scripts on ONE long-lived FileCache object and on TWO objects sharing the root whose expected answer changes between calls (A then B, miss then hit, hit then miss, fail then pass), random histories (half of them spread over the two objects) of 3..12 operations followed by a sweep of Gets, and entries that expire while the history runs (real clock), and the freshness matrix repeated over parts of about 0.2 / 0.5 / 5 kB (fresh, expired, zero NextUpdate at every size, base and delta independently). non-trivial = some Get addresses a url that was stored or corrupted earlier in the history, or the history touches a hostile url; distinct = distinct (family, urls, operations, CRL kinds, corruption, results) sequences"
 	w.Assumptions = []string{
 		"crypto/sha256 has no collision among the urls of a history (checked per case inside Coq: wf)",
 		"encoding/json + encoding/base64 decode what they encoded (checked per Set inside Coq: wf); x509.ParseRevocationList is an oracle giving (Raw, NextUpdate) | error for every byte string met (it ignores bytes after the first DER element, so Raw may be a proper prefix of a stored part)",
@@ -817,6 +817,15 @@ func runC15(a *Args) error {
 	// larger than one 4 KiB buffer once stored (150 revoked certificates)
 	add(e.mint("B1", "F", e.t0.Add(48*h), false, 150))
 	add(e.mint("BD1", "F", e.t0.Add(48*h), true, 150))
+	// the same sizes expired / without NextUpdate: freshness must not depend on the size of a part
+	// (12 revoked certificates: about 0.5 kB, 150: about 5 kB)
+	add(e.mint("EM1", "E", e.t0.Add(-1*h), false, 12))
+	add(e.mint("EMD1", "E", e.t0.Add(-1*h), true, 12))
+	add(e.mint("EB1", "E", e.t0.Add(-1*h), false, 150))
+	add(e.mint("EBD1", "E", e.t0.Add(-2*h), true, 150))
+	add(e.mint("ZB1", "Z", time.Time{}, false, 150))
+	add(e.mint("M1", "F", e.t0.Add(3*h), false, 12))
+	add(e.mint("MD1", "F", e.t0.Add(3*h), true, 12))
 	add(e.mint("Z1", "Z", time.Time{}, false, 0))
 	add(e.mint("ZD1", "Z", time.Time{}, true, 0))
 	add(&crlObj{Label: "W1", Kind: "W", Raw: []byte("this is not a CRL"), RL: &x509.RevocationList{Raw: []byte("this is not a CRL")}})
